@@ -5,7 +5,13 @@ VERIF = os.path.dirname(os.path.dirname(os.path.abspath(__file__)))
 REPO = os.environ.get("VERIF_REPO", "/repo")
 COQ = os.path.join(VERIF, "coq")
 HARNESS = os.path.join(VERIF, "harness")
-HBIN = os.path.join(HARNESS, "target", "release", "verif-harness")
+def _target_dir():
+    if REPO == "/repo":
+        return os.path.join(HARNESS, "target")
+    return os.path.join(HARNESS, "target-" + hashlib.sha256(REPO.encode()).hexdigest()[:8])
+
+
+HBIN = os.path.join(_target_dir(), "release", "verif-harness")
 EVID = os.path.join(VERIF, "evidence")
 REPLAYS = os.path.join(VERIF, "replays")
 WORK = os.path.join(VERIF, "work")
@@ -62,8 +68,13 @@ def build_harness():
         if not os.path.exists(lock_dst):
             import shutil
             shutil.copy(lock_src, lock_dst)
+        tmpl = open(os.path.join(HARNESS, "Cargo.toml.in")).read().replace("@REPO@", REPO)
+        ct = os.path.join(HARNESS, "Cargo.toml")
+        if not os.path.exists(ct) or open(ct).read() != tmpl:
+            open(ct, "w").write(tmpl)
         p = sh(["cargo", "build", "--release", "--offline"], cwd=HARNESS, timeout=1800,
-               env={"RUSTFLAGS": "--cfg miniscript_verif", "CARGO_NET_OFFLINE": "true"})
+               env={"RUSTFLAGS": "--cfg miniscript_verif", "CARGO_NET_OFFLINE": "true",
+                    "CARGO_TARGET_DIR": _target_dir()})
         if p.returncode != 0:
             raise RuntimeError("harness build failed (does /repo still compile?)\n" + p.stderr[-6000:])
     return HBIN
